@@ -90,8 +90,9 @@ ForcedSet == {p \in Procs : Forced(p)}
 Consume == /\ l <= NE
            /\ LET e == Events[l] p == ProcOf(e)
               IN /\ p \in Procs /\ ahead[p] /\ At(p) = e.ev
-                 \* what Mine returned: a nonce of the worker the model says, or the cancellation error
-                 /\ e.ev = "returned" => /\ e.val = ret
+                 \* what Mine returned: a nonce (when a worker of the model sent one) or the cancellation error
+                 /\ e.ev = "returned" => /\ (e.val = -1) <=> (ret = -1)        \* the cancellation error exactly when the model says so
+                                         /\ (e.val = 1) <=> (ret \in Workers)   \* else a nonce (val = -2: another error, never allowed)
                                          /\ e.leaked = 0            \* no goroutine outlives Mine
                                          /\ ~e.bad_nonce            \* a returned nonce meets the target (Score, in the driver)
                  /\ ahead' = [ahead EXCEPT ![p] = FALSE]
